@@ -436,3 +436,49 @@ Proof.
 Qed.
 
 End Inv.
+
+(* ------------------------------------------------------------------------------------------ *)
+(* tactics *)
+Ltac la_last HE :=
+  first [ exact (la_param_last _ HE) | exact (la_var_dec_last _ HE) | exact (la_stmt_last _ HE)
+        | exact (la_global_last _ HE) ].
+
+Ltac bd_destruct := repeat match goal with x : _ * _ |- _ => destruct x end.
+Ltac bd_opts :=
+  repeat match goal with
+         | |- context [match ?o with Some _ => _ | None => _ end] => is_var o; destruct o
+         end.
+Ltac bd_side :=
+  solve [ intros; unfold_bd; bd_unf; bd_destruct; cbn in *; bd_unf; bd_opts; bd_destruct; cbn in *; bd_unf;
+          intuition (auto using InfoB_self_err) ].
+
+Ltac inv_step HE :=
+  first
+  [ assumption
+  | apply (Inv_fuel _)
+  | apply (Inv_comments _ HE)
+  | apply (Inv_tag _ HE); [reflexivity]
+  | apply (Inv_peek_la _)
+  | apply (Inv_ignore0 _ HE); [la_last HE]
+  | apply (Inv_ignore1 _ HE); [la_last HE]
+  | apply (Inv_alt _) | apply (Inv_opt _) | apply (Inv_pair _) | apply (Inv_preceded _) | apply (Inv_terminated _)
+  | apply (Inv_many0 _) | apply (Inv_info _) | apply (Inv_expect _) | apply (Inv_ref _)
+  | apply (Inv_confusable _)
+  | eapply (Inv_map _); [ | bd_side ] ].
+Ltac inv HE := repeat (inv_step HE).
+
+(* ------------------------------------------------------------------------------------------ *)
+Section NonTerminalsB.
+Variable toks : list token.
+Hypothesis HE : EofLast toks.
+Notation M := (length toks - 1).
+Notation InvT := (Inv toks).
+Notation InvAtT := (InvAt toks).
+
+Lemma Inv_ident : InvT bd_ident (p_ident toks).
+Proof. unfold p_ident. inv HE. Qed.
+
+Lemma Inv_intlit : InvT bd_intlit (p_intlit toks).
+Proof. unfold p_intlit. inv HE. Qed.
+
+End NonTerminalsB.
